@@ -45,8 +45,7 @@ def run_case(case):
             layout = rb.build(scr, case)
         except Exception as e:
             return Outcome(Violation("C14:setup-exception:%s" % type(e).__name__, "creating metafiles raised %r" % (e,)), False)
-        dest = os.path.join(scr, "dest")
-        os.makedirs(dest)
+        dest = rb.make_dest(scr, case)
         assigned = {}     # rel path under dest -> (length, basename)
         pre = False
         for mf, tor in zip(layout["metafiles"], case["torrents"]):
@@ -99,6 +98,26 @@ def run_case(case):
             cls.add("repeat")
         nontrivial = pre or "decoy" in cls or repeats > 1
         for rep in range(repeats):
+            if rep == 1 and case.get("swap_between"):
+                sw = case["swap_between"]
+                ti = sw["torrent"] % len(case["torrents"])
+                tor = case["torrents"][ti]
+                fi = sw["file"] % len(tor["tree"]["files"])
+                f = tor["tree"]["files"][fi]
+                src = layout["placed_at"].get((ti, fi))
+                if src and f["size"] > 0:
+                    data = sandbox.file_bytes(f)
+                    st0 = os.stat(src)
+                    with open(src, "r+b") as fd:
+                        fd.write(rb.decoy_bytes(data))
+                    os.utime(src, ns=(st0.st_atime_ns, st0.st_mtime_ns))
+                    name = rb.basename_of(tor["tree"], f)
+                    decoy_digests.add((name, _sha(rb.decoy_bytes(data))))
+                    avail.setdefault(name, set()).add(_sha(rb.decoy_bytes(data)))
+                    rel = tor["tree"]["name"] if tor["tree"]["single"] else os.path.join(tor["tree"]["name"], *f["path"])
+                    if os.path.isfile(os.path.join(dest, rel)):
+                        os.remove(os.path.join(dest, rel))
+                    cls.add("source-swapped-with-decoy")
             before_out = [sandbox.snapshot(r) for r in outside_roots]
             before = sandbox.snapshot(dest)
             count, exc = rb.run_rebuild(layout, case, dest)
